@@ -38,20 +38,22 @@ class SRecord:
 
 def write_srecord(obj, f):
     """Write object to srecord"""
-    data = obj.get_section("code").data
+    section = obj.get_section("code")
+    data = section.data
+    end_address = section.address + len(data)
     # Select the address width (S1/S2/S3) able to hold the highest address,
     # together with the matching termination record (S9/S8/S7):
-    if len(data) <= 0x10000:
+    if end_address <= 0x10000:
         data_typ, end_typ = 1, 9
-    elif len(data) <= 0x1000000:
+    elif end_address <= 0x1000000:
         data_typ, end_typ = 2, 8
-    elif len(data) <= 0x100000000:
+    elif end_address <= 0x100000000:
         data_typ, end_typ = 3, 7
     else:
         raise ValueError("Code does not fit in the s-record address space")
     record = SRecord(0, 0, b"HDR")
     print(record.to_line(), file=f)
-    address = 0
+    address = section.address
     for chunk in chunks(data):
         record = SRecord(data_typ, address, chunk)
         print(record.to_line(), file=f)
